@@ -377,7 +377,8 @@ def diff(before, after):
     Return a dictionary with the difference between 'before' and 'after',
     for items which are present in 'after' dictionary
     """
-    diff = dict((k, v) for (k, v) in after.items() if before.get(k, None) != v)
+    missing = object()  # a key that was absent before is a difference even if its new value is None
+    diff = dict((k, v) for (k, v) in after.items() if before.get(k, missing) != v)
     return diff
 
 
